@@ -205,6 +205,7 @@ parser! {
     rule semisep<T>(x: rule<T>) -> Vec<T> = v:(x() ** (_ semicolon() _)) _ semicolon() {v}
     rule semisep_oneplus<T>(x: rule<T>) -> Vec<T> = v:(x() ++ (_ semicolon() _)) _ semicolon() {v}
     rule commasep_oneplus<T>(x: rule<T>) -> Vec<T> = v:(x() ++ (_ comma() _)) _ comma() {v}
+    rule commasep_oneplus_no_trailing<T>(x: rule<T>) -> Vec<T> = v:(x() ++ (_ comma() _)) {v}
 
     // TODO this should be a list of standard function block names
     rule STANDARD_FUNCTION_BLOCK_NAME() = id_eq("END_VAR")
@@ -1257,7 +1258,9 @@ parser! {
         sinks,
       }
      }
-    rule prog_conf_elements() -> Vec<ProgramConfigurationKind> = commasep_oneplus(<prog_conf_element()>)
+    // The elements are separated by commas. A comma after the last element is not part of the
+    // language but has been accepted and so remains accepted.
+    rule prog_conf_elements() -> Vec<ProgramConfigurationKind> = elements:commasep_oneplus_no_trailing(<prog_conf_element()>) (_ comma())? { elements }
     rule prog_conf_element() -> ProgramConfigurationKind = fb:fb_task() { ProgramConfigurationKind::FbTask(fb) } / prog_cnxn()
     rule fb_task() -> FunctionBlockTask = fb_name:fb_name() _ tok(TokenType::With) _ task_name:task_name() {
       FunctionBlockTask { fb_name, task_name }
